@@ -162,3 +162,26 @@ def conclude(agg):
     if c["compared"] < need:
         out.append(f"only {c['compared']} executor results were compared with an engine consensus (minimum {need})")
     return out
+
+
+def replay(rec):
+    """re-runs the stored SQL text on the stored tables and data"""
+    from ..runner import ReplayCtx
+
+    ctx = ReplayCtx()
+    case = rec["case"]
+    tables = [sqlgen.Table(n, [tuple(c) for c in cols]) for n, cols in case["tables"]]
+    data = {k: [tuple(r) for r in v] for k, v in case["data"].items()}
+
+    class Q:
+        order_total = " ORDER BY " in case["sql"]
+        tags = set()
+
+        def render(self, prof="duckdb", mode="min"):
+            return case["sql"]
+    _replay_case(ctx, Q(), tables, data, case)
+    return ctx.report()
+
+
+def _replay_case(ctx, q, tables, data, case):
+    check_case(ctx, q, tables, data)
